@@ -520,7 +520,7 @@ B("RB.boxes", ["C05", "C03", "C01"], END, "bounded_boxes",
   "Span::endorse / Contacts::endorse_rects / endorse_rect / endorse_rounded_rect / is_rounded_rect / right_angle_arcs + the tables of + - ~ | : . , ' `",
   "a drawn box (sharp or rounded corners, '-' or '~' edges, '|' sides with an optional ':' stretch, optional interior text) is exactly one rect with the drawn "
   "position, size, rounding and dashing, anywhere; with a stub line attached it is not a rect",
-  "3 corner styles x 2 edge styles x widths 0..9 x heights 0..5 (thorough 0..60 x 0..30) x 3 offsets x {plain, interior text, dashed side, stub attached} "
+  "3 corner styles x 2 edge styles x widths 0..9 x heights 0..5 (thorough 0..60 x 0..30) x 3 offsets x {plain, interior text, ':' stretch in the middle / first / last row of the sides, stub attached} "
   "(tables behind once_cell::Lazy; 8 symbolic fragments through is_rounded_rect exceed Kani)", timeout=900, timeout_thorough=7200)
 
 B("C01.lazy_tables_init", ["C01", "C13"], CM, "bounded_lazy_tables_init", "every once_cell::Lazy table of map/*.rs",
@@ -550,7 +550,7 @@ B("C14.bullets", ["C14"], FB, "bounded_bullets", "rows of * o O in ASCII_PROPERT
   "3 bullets x 4 line directions x lengths 2..4 x 2 offsets = 72 diagrams", file="map/ascii_map.rs")
 B("C14.rounded_corners", ["C14", "C05"], FB, "bounded_rounded_corners", "rows of . , ' ` in ASCII_PROPERTIES + Arc::center",
   "four arcs; every arc end coincides with an end of an adjoining line; the arc's centre lies on the inner side of the outline",
-  "2 corner styles x widths 1..8 x heights 1..5 x 2 offsets = 160 outlines with a stub attached", file="map/ascii_map.rs")
+  "3 corner styles (. and , corners above the sides; . corners one column inside the sides) x widths 1..8 x heights 1..5 x 2 offsets = 240 outlines with a stub attached", file="map/ascii_map.rs")
 
 B("T8.labels_conserved", ["C04", "C13", "C06"], SPAN, "bounded_labels_conserved",
   "CellBuffer::get_fragment_spans / Span::endorse / endorse_to_arcs_and_circles / circle_map::endorse_*_span / Contacts::endorse_rects",
